@@ -103,7 +103,8 @@ def run(module, cfg, *, name=None, workers=None, simulate=None, depth=None, seed
     files[name + ".cfg"] = cfg
     _stage(workdir, files)
     meta = os.path.join(workdir, "meta")
-    cmd = ["java", "-XX:+UseParallelGC", "-Xmx8g"] + list(java_opts) + ["-cp", CP, "tlc2.TLC",
+    # (TLC leaves an empty tlc-<n> directory in java.io.tmpdir per run: keep those inside the scratch root, which is removed)
+    cmd = ["java", "-XX:+UseParallelGC", "-Xmx8g", "-Djava.io.tmpdir=" + common.scratch("jtmp")] + list(java_opts) + ["-cp", CP, "tlc2.TLC",
            "-metadir", meta, "-noGenerateSpecTE", "-config", name + ".cfg",
            "-workers", str(workers or common.NCPU)]
     if simulate is not None:
